@@ -23,6 +23,7 @@ ENTRIES = [(COX, "CoxeterGroup.automaton"),
 
 
 def run(ctx):
+    ctx.do(F.rule_bfs5)
     ctx.do(X.rule_thr1)
     ctx.do(X.rule_even2)
     ctx.do(X.rule_ord2)
